@@ -22,7 +22,7 @@ from sim.ref import sv
 from sim.seam import OutcomeScript, OwnedRNG
 
 ID = "C02"
-RUNS = {"quick": 1200, "thorough": 30000}
+RUNS = {"quick": 2400, "thorough": 40000}
 BUDGET = {"quick": 75, "thorough": 1500}
 CHUNK = {"quick": 10, "thorough": 40}
 RUN_TIMEOUT_S = 600
@@ -50,11 +50,19 @@ ASSUMPTIONS = [
 def gen_case(run_seed, tier):
     sz = stream(run_seed, "sizes")
     nmax = 7 if tier == "thorough" else 6
-    if sz.random() < 0.15:
+    if sz.random() < 0.2:
         nmax = 8  # a share of larger targets (rare emitter re-use patterns start at 6-8 vertices)
     aim_isolated = sz.random() < 0.1
     if aim_isolated:
-        g, fam = graphs.random_graph(sz, 1, nmax, allow_isolated=True)
+        g, fam = graphs.random_graph(sz, 1, min(nmax, 7), allow_isolated=True)
+    elif nmax == 8:
+        # larger connected random targets: emitter re-use patterns (an emitter freed by a mid-circuit measurement and
+        # used again through a generator spanning two emitters) only start to appear at 6-8 vertices
+        while True:
+            g = graphs.relabel(sz, graphs.er(sz, sz.choice([7, 8, 8]), sz.choice([0.3, 0.45, 0.6])))
+            if graphs.is_connected(g):
+                break
+        fam = "er-large"
     else:
         g, fam = graphs.random_graph(sz, 2, nmax, allow_isolated=False, fams=["er", "er", "path", "star", "cycle", "complete", "tree", "rgs", "union", "union", "union"])
     rep = sz.choice(["g", "g", "s", "dm"])
